@@ -54,4 +54,12 @@ one thing no two databases share (`published_under_own_address` is about that to
 theorem store_topic_is_its_address_tied_to_go_text : Gen.storeTopicIsAddress = true :=
   gen_store_topic_is_address
 
+/-- every store event emitted on the bus the stores of an instance share says which database it is
+about: the new-peer event of the Go text of this run carries the address of the store that emits it
+(after the `fix:` commit, finding F43: it was the only store event without one — a listener of one
+database was told about the peers of every other; the harness watches the shared bus for store events
+that name no database) -/
+theorem new_peer_event_names_its_database_tied_to_go_text : Gen.newPeerEventHasAddress = true :=
+  gen_newpeer_event_has_address
+
 end Orbit.C09
